@@ -1,7 +1,7 @@
 (** C03 — function versions are deterministic.
     Statements only (model Version/Rules.v, proofs Version/RulesProofs.v). *)
 From Coq Require Import List Arith Bool.
-From Memento Require Import Version.Rules Version.RulesProofs Gen.SourceFacts Gen.FactsOK.
+From Memento Require Import Version.Rules Version.RulesProofs Gen.SourceFacts Gen.FactsC03.
 Import ListNotations.
 
 (** two presentations of one program that differ only in the order in which each function's
